@@ -544,11 +544,11 @@ func c14ConcurrentScenario(sameAddr bool) func() {
 
 func init() {
 	register(&Check{ID: "C14",
-		Rule: "explicit-state BFS over configuration-building operations executed on the real manager (successor = replay of the shortest path on a fresh manager + one operation), depth 3 (quick) / 4 (thorough, within the time budget); alphabet: WithNodeList over every address list of length 1..2 (3 thorough) from {a, b, c, c'} (c, c' have colliding generated IDs; duplicates included), WithNodeMap over every 1-2 entry map {a,b,c}->{1,2} in both iteration orders, WithNodeIDs over lists of 1-2 ids from {1, 2, id(a), unknown} and lists of 3 over {1, 2} with adjacent and non-adjacent repeats, And / Except / WithoutNodes / WithNewNodes over the configurations built so far; states deduplicated by (pool, list of configurations); reference model = Go sets; states = distinct canonical states, transitions = operations executed and compared; plus two goroutines creating, at the same time, configurations that introduce a new address under the same node ID (all schedules within 2 deviations): one node object per ID, never two addresses for one ID",
+		Rule: "explicit-state BFS over configuration-building operations executed on the real manager (successor = replay of the shortest path on a fresh manager + one operation), depth 4 (quick) / 5 (thorough, within the time budget); alphabet: WithNodeList over every address list of length 1..2 (3 thorough) from {a, b, c, c'} (c, c' have colliding generated IDs; duplicates included), WithNodeMap over every 1-2 entry map {a,b,c}->{1,2} in both iteration orders, WithNodeIDs over lists of 1-2 ids from {1, 2, id(a), unknown} and lists of 3 over {1, 2} with adjacent and non-adjacent repeats, And / Except / WithoutNodes / WithNewNodes over the configurations built so far; states deduplicated by (pool, list of configurations); reference model = Go sets; states = distinct canonical states, transitions = operations executed and compared; plus two goroutines creating, at the same time, configurations that introduce a new address under the same node ID (all schedules within 2 deviations): one node object per ID, never two addresses for one ID",
 		Gen: func(tier string) []Instance {
-			depth := 3
+			depth := 4
 			if thorough(tier) {
-				depth = 4 // cut by the time budget if necessary (reported as exhaustive:false)
+				depth = 5 // cut by the time budget if necessary (reported as exhaustive:false)
 			}
 			var out []Instance
 			groups := []string{"NodeList/len1", "NodeList/len2", "NodeMap/len1", "NodeMap/len2", "NodeIDs"}
